@@ -66,5 +66,20 @@ CHECKS['C02'] = dict(
          'line) a raw line break. The statement for all strings is the induction over |s| on these lemmas.',
     note='trusted: pyvc/z3 string encoding, the re.sub summary for single-character alternations (character sets '
          'established by matching every code point), the _next_char contract (discharged in C03); Cython twin unverified.')
+CHECKS['C03'] = dict(
+    category='proof',
+    technique='contract-based deductive verification: pyvc refinement proof of _next_char against the remaining text '
+              '(loop invariant over the chunk iterator), frame/rewind obligations on the AST, totality and progress '
+              'lemmas over every tokenizer loop body for symbolic options; cut/uncut differential stand-in',
+    text='Tokenizer._next_char is proved, for any sequence of chunks (empty ones included), to return the first character '
+         'of the remaining concatenated text and leave its tail - hence every token, value, line number and error is a '
+         'function of the text alone, however it is cut; the chunk state is shown private to _next_char and the one-step '
+         'rewind idiom, and each rewind follows a read. _handle_string, _handle_comment and one arbitrary iteration of '
+         '_get_token are executed symbolically for arbitrary characters with all seven options symbolic: nothing but '
+         'self.error() escapes (error templates checked for arity at every call site) and every continuing iteration '
+         'advances the position (linear bound). Keyvalues.parse totality and the literal cut/uncut comparison are '
+         'bounded stand-ins.',
+    note='trusted: pyvc/z3 encoding, uninterpreted concatenation of unread chunks with its two axioms, error() summary, '
+         'enum members as values; Keyvalues.parse and IterTokenizer sources are bounded-only; Cython tokenizer unverified.')
 _PENDING = 'not yet built in this session (planned, see DESIGN.md section 3); no check is registered so nothing is claimed'
 NOT_APPLICABLE = {f'C{i:02d}': _PENDING for i in range(1, 21) if f'C{i:02d}' not in CHECKS}
